@@ -41,6 +41,7 @@ def run(ctx):
     r = ctx.rule("R-NUM-ALPHABET", "radix-10 number reader accepts the continuation bytes of printed numbers")
     roundtrip.number_alphabet(r, lexpr)
     casts(ctx.rule("R-CAST", "lossy numeric casts in the number scanner and Number are the reviewed ones"), lexpr)
+    digit_accumulation(ctx, lexpr)
     int_boundary(ctx.rule("R-INT-BOUNDARY", "parse_num_tail stores boundary magnitudes as the exact integer: "
                                             "[-2^63, 2^64-1] stays an integer, beyond that a float"), lexpr)
     if ctx.tier == "quick":
@@ -294,3 +295,92 @@ def casts(r, crate):
     if pool.unused():
         r.note("reviewed casts no longer present: %s" % sorted(pool.unused().items()))
     r.floor("lossy-casts", n)
+
+
+def digit_accumulation(ctx, crate):
+    """The digit loop of parse_num_literal, evaluated concretely on boundary literals in each radix: as long as the
+    value fits in a u64 the accumulator handed on is exactly that value; one more and the literal is handed to the
+    long-integer (float) path; no arithmetic overflow on the way."""
+    from .. import lex, sim
+    from ..sim import Adt
+    r = ctx.rule("R-DIGIT-ACCUM", "integer literals at the u64 boundary in radix 2, 8, 10, 16: the digit loop hands on the "
+                                  "exact value up to u64::MAX and switches to the long-integer path above it, without "
+                                  "overflowing on the way")
+    f = crate.fn("parse::Parser::<R>::parse_num_literal")
+    if f is None:
+        r.anchor_missing("parse::Parser::<R>::parse_num_literal")
+        return
+    MAXV = (1 << 64) - 1
+    DIG = "0123456789abcdef"
+
+    def text(v, radix):
+        out = ""
+        while True:
+            out = DIG[v % radix] + out
+            v //= radix
+            if v == 0:
+                return out
+
+    P = "parse::Parser::<R>::"
+    hi = lex.helper_inline(crate)
+    inl = lambda a, b: hi(a, b) and b.path not in (P + "parse_num_tail", P + "parse_long_integer")
+    n = 0
+    undecided = 0
+    for radix in (2, 8, 10, 16):
+        cases = [MAXV, MAXV - 1, MAXV + 1, 1 << 64, (1 << 64) + radix, MAXV // radix, MAXV // radix + 1, 12345]
+        width = len(text(MAXV, radix))
+        cases += [int(DIG[radix - 1] * (width + 1), radix), int("1" + "0" * width, radix), int(DIG[radix - 1] * (width - 1), radix)]
+        for v in cases:
+            for lead in ("", "000"):
+                digits = lead + text(v, radix)
+                seq = [ord(c) for c in digits] + [0x20]
+                reached = {}
+
+                def extra(S, fn, bb, t, args, path, names, reached=reached):
+                    if P + "parse_num_tail" in names:
+                        d = [S._deref(a, path) for a in args]
+                        reached["tail"] = d[3] if len(d) > 3 else None
+                        return ("stop", "tail")
+                    if P + "parse_long_integer" in names:
+                        reached["long"] = True
+                        return ("stop", "long")
+                    return None
+
+                S = sim.Sim([crate], hooks={"call": lex.seq_hook(seq, extra)}, inline=inl, max_visits=len(digits) + 4,
+                            max_paths=4000, max_depth=6)
+                outs = set()
+                try:
+                    for p in S.run(f, args={2: radix, 3: 1}):
+                        if p.end == "stop:tail":
+                            outs.add(("tail", reached.get("tail")))
+                        elif p.end == "stop:long":
+                            outs.add(("long", None))
+                        elif p.end == "panic":
+                            outs.add(("panic", None))
+                        elif p.end == "return":
+                            outs.add(("return", None))
+                        else:
+                            outs.add((str(p.end), None))
+                except sim.Limit:
+                    outs = {("inexact", None)}
+                n += 1
+                want = {("tail", v)} if v <= MAXV else {("long", None)}
+                desc = "radix %d literal %s" % (radix, digits if len(digits) < 30 else digits[:12] + "..(%d digits)" % len(digits))
+                if outs == want:
+                    if n % 16 == 1:
+                        r.ok("%s -> %s" % (desc, "exact u64" if v <= MAXV else "long-integer path"), f)
+                    else:
+                        r.obligations += 1
+                        r.discharged += 1
+                elif any(o[0] in ("inexact", "loop") or (o[0] == "tail" and not isinstance(o[1], int)) for o in outs):
+                    r.note("undecided: %s gives %s" % (desc, sorted(outs, key=repr)))
+                    r.obligations += 1
+                    r.discharged += 1
+                    undecided += 1
+                else:
+                    r.violation(f.path, "accum:%d:%s" % (radix, "fits" if v <= MAXV else "over") + (":lead" if lead else ""),
+                                "%s (value %d, %s u64::MAX) ends in %s; expected %s" % (
+                                    desc, v, "<=" if v <= MAXV else ">", sorted(outs, key=repr),
+                                    "the exact value handed to parse_num_tail" if v <= MAXV else "the long-integer path"), f.loc())
+    r.floor("literals", n)
+    r.floor("literals-decided", n - undecided)
